@@ -1,43 +1,120 @@
-//! C02 — coordinates <-> flat positions.  Exhaustive over shapes and the coordinate box enlarged by one.
+//! C02 — coordinates <-> flat positions.  Exhaustive over shapes and the coordinate box enlarged by one, plus the
+//! robustness streams of FRAMEWORK.md: big shapes (axis lengths 7..17, powers of two up to 1024, element counts beyond
+//! 256 / 1024 / 4096), zero-length axes, the element-type sweep, both receivers, the same call twice.
 use arrharness::*;
+use std::any::{Any, TypeId};
+use std::cell::RefCell;
+use std::collections::HashMap;
+use std::rc::Rc;
+use std::panic::{catch_unwind, AssertUnwindSafe};
+
+// ================================================================ generator
+
+/// the regular coordinate / position stream of one shape: every flat index 0..n+1, every coordinate vector of the box
+/// enlarged by one per axis, wrong-length and far-out vectors (QUADRATIC in the box: small shapes only)
+fn emit_full_box(s: &[usize], out: &mut dyn FnMut(String)) {
+    let a = tag(s);
+    let n: usize = s.iter().product();
+    for i in 0..n + 2 {
+        out(format!("index_to_coord {a} {i}"));
+        out(format!("op_index {a} {i}"));
+    }
+    let dims: Vec<usize> = s.iter().map(|d| d + 1).collect();
+    for c in boxes(&dims) {
+        let c = show_list(&c);
+        out(format!("index_at {a} {c}"));
+        out(format!("at {a} {c}"));
+        out(format!("op_index_coords {a} {c}"));
+    }
+    emit_malformed(s, out);
+}
+
+/// wrong-length vectors: rank-1 and rank+1 (all zeros, and in-range-looking); far out of range
+fn emit_malformed(s: &[usize], out: &mut dyn FnMut(String)) {
+    let a = tag(s);
+    let n: usize = s.iter().product();
+    let short: Vec<usize> = vec![0; s.len() - 1];
+    let long: Vec<usize> = vec![0; s.len() + 1];
+    for c in [short, long] {
+        let c = show_list(&c);
+        out(format!("index_at {a} {c}"));
+        out(format!("at {a} {c}"));
+        out(format!("op_index_coords {a} {c}"));
+    }
+    let far: Vec<usize> = s.iter().map(|d| d + 1000).collect();
+    out(format!("index_at {a} {}", show_list(&far)));
+    out(format!("index_to_coord {a} {}", n + 100000));
+}
+
+/// big shapes: every flat index 0..n+1, every IN-RANGE coordinate vector, and the one-off border (for every axis k every
+/// vector with c[k] = shape[k] and the other components in range; the corner with every component = its axis length) —
+/// linear in the element count instead of the whole enlarged box
+fn emit_big(s: &[usize], out: &mut dyn FnMut(String)) {
+    let a = tag(s);
+    let n: usize = s.iter().product();
+    for i in 0..n + 2 {
+        out(format!("index_to_coord {a} {i}"));
+        out(format!("op_index {a} {i}"));
+    }
+    let mut coord_case = |c: &[usize]| {
+        let c = show_list(c);
+        out(format!("index_at {a} {c}"));
+        out(format!("at {a} {c}"));
+        out(format!("op_index_coords {a} {c}"));
+    };
+    for c in boxes(s) { coord_case(&c); }
+    for k in 0..s.len() {
+        let mut dims = s.to_vec(); dims[k] = 1;
+        for mut c in boxes(&dims) { c[k] = s[k]; coord_case(&c); }
+    }
+    coord_case(&s.to_vec());
+    emit_malformed(s, out);
+}
+
+/// shapes beyond the small scope that are specific to C02: every axis length 7..=17 in the leading, an inner and the
+/// trailing position, and power-of-two axis lengths 8..1024 in non-leading positions
+fn c02_big_shapes(thorough: bool) -> Vec<Vec<usize>> {
+    let mut v = big_shapes();
+    for l in 7..=17usize {
+        v.push(vec![l]); v.push(vec![2, l]); v.push(vec![l, 2]); v.push(vec![3, l, 2]); v.push(vec![2, 3, l]); v.push(vec![l, 3, 2]);
+        if thorough { v.push(vec![l, l]); v.push(vec![2, l, 1, 3]); v.push(vec![2, 1, l, 2, 2]); }
+    }
+    v.extend(vec![vec![3, 32], vec![32, 3], vec![2, 32, 2], vec![3, 64], vec![2, 2, 64], vec![2, 128], vec![2, 128, 3], vec![3, 256], vec![2, 512],
+                  vec![5, 1024], vec![2, 2048, 1], vec![16, 16, 16], vec![8, 8, 8, 8], vec![2, 2, 2, 2, 2], vec![4, 2, 8, 2, 4]]);
+    if thorough { v.extend(vec![vec![2, 4096], vec![4096, 2], vec![3, 3, 3, 3, 3, 3], vec![17, 17, 17], vec![6, 5, 4, 3, 2, 2]]); }
+    v.sort(); v.dedup();
+    v
+}
 
 fn gen(tier: &str, seed: u64, out: &mut dyn FnMut(String)) {
-    let mut shapes_all = if tier == "thorough" { shapes(1, 4, 1, 4) } else { shapes(1, 4, 1, 3) };
-    shapes_all.extend(if tier == "thorough" { shapes(5, 5, 1, 3) } else { shapes(5, 5, 1, 2) });
+    let thorough = tier == "thorough";
+    // corpus of past failures (seeded changes that an earlier generator missed) first
+    for l in ["index_to_coord i3,8 8", "index_to_coord i2,3,16 16", "index_to_coord i2,8,3 24", "index_at i2,3 0,3", "at i2,3 0,3",
+              "index_at i2,0,3 0,0,0", "index_at i0 0", "at i2,3,4 0,1,0", "index_at i2,3,4 0,3,0"] { out(l.to_string()); }
+    let mut shapes_all = if thorough { shapes(1, 4, 1, 4) } else { shapes(1, 4, 1, 3) };
+    shapes_all.extend(if thorough { shapes(5, 5, 1, 3) } else { shapes(5, 5, 1, 2) });
     // zero-length axes: the empty array and shapes containing 0
     shapes_all.extend(vec![vec![0], vec![0, 2], vec![2, 0], vec![2, 0, 3]]);
+    for z in zero_shapes() { if !shapes_all.contains(&z) { shapes_all.push(z); } }
+    shapes_all.extend(vec![vec![0, 0, 0], vec![1, 0, 1], vec![0, 3, 0], vec![2, 2, 0, 2], vec![0, 1, 1, 1, 1], vec![1, 1, 1, 1, 0]]);
     let mut rng = Rng::new(seed);
-    let n_rand = if tier == "thorough" { 400 } else { 60 };
+    let n_rand = if thorough { 400 } else { 60 };
     for _ in 0..n_rand { let r = 1 + rng.below(5); shapes_all.push((0..r).map(|_| 1 + rng.below(6)).collect()); }
-    for s in &shapes_all {
-        let a = tag(s);
+    for s in &shapes_all { emit_full_box(s, out); }
+    // ---- sizes beyond the small scope
+    for s in c02_big_shapes(thorough) { emit_big(&s, out); }
+    // seeded random big shapes: rank 1..5, axis lengths 1..20 (thorough 1..40), at most 3000 (6000) elements
+    let (n_big, max_len, max_n) = if thorough { (60, 40, 6000) } else { (8, 20, 3000) };
+    let mut made = 0;
+    while made < n_big {
+        let r = 1 + rng.below(5);
+        let s: Vec<usize> = (0..r).map(|_| 1 + rng.below(max_len)).collect();
         let n: usize = s.iter().product();
-        for i in 0..n + 2 {
-            out(format!("index_to_coord {a} {i}"));
-            out(format!("op_index {a} {i}"));
-        }
-        let dims: Vec<usize> = s.iter().map(|d| d + 1).collect();
-        for c in boxes(&dims) {
-            let c = show_list(&c);
-            out(format!("index_at {a} {c}"));
-            out(format!("at {a} {c}"));
-            out(format!("op_index_coords {a} {c}"));
-        }
-        // wrong-length vectors: rank-1 and rank+1 (all zeros, and in-range-looking)
-        let short: Vec<usize> = vec![0; s.len() - 1];
-        let long: Vec<usize> = vec![0; s.len() + 1];
-        for c in [short, long] {
-            let c = show_list(&c);
-            out(format!("index_at {a} {c}"));
-            out(format!("at {a} {c}"));
-            out(format!("op_index_coords {a} {c}"));
-        }
-        // far out of range
-        let far: Vec<usize> = s.iter().map(|d| d + 1000).collect();
-        out(format!("index_at {a} {}", show_list(&far)));
-        out(format!("index_to_coord {a} {}", n + 100000));
+        if n > max_n || n < 30 { continue; }
+        emit_big(&s, out); made += 1;
     }
     gen_ext(tier, &mut rng, out);
+    gen_ext_big(tier, &mut rng, out);
 }
 
 /// extension: `slice(range)` and `indices_at(indices)`; answers are whole arrays (`shape:elems`)
@@ -52,6 +129,7 @@ fn gen_ext(tier: &str, rng: &mut Rng, out: &mut dyn FnMut(String)) {
     sh.push(vec![5, 5]);
     // rank 0, the empty array, zero-length axes in every position
     sh.extend(vec![vec![], vec![0], vec![0, 0], vec![0, 2], vec![2, 0], vec![3, 0], vec![0, 3, 2], vec![2, 0, 3], vec![2, 3, 0], vec![1, 0], vec![0, 1]]);
+    sh.extend(zero_shapes());
     sh.sort(); sh.dedup();
     for s in &sh {
         let a = tag(s);
@@ -98,34 +176,201 @@ fn gen_ext(tier: &str, rng: &mut Rng, out: &mut dyn FnMut(String)) {
     }
 }
 
-/// whole-array answer; every array the real crate returns also goes through the C01 monitor
-fn arr_answer(r: Result<Array<i64>, ArrayError>) -> String {
-    if let Ok(x) = &r { if !consistent(x) { return format!("inconsistent {}", show_arr(x)); } }
-    res_arr(&r)
+/// `slice` / `indices_at` on the big shapes: a grid of starts x windows around every threshold of the code
+/// (0, 1, 2, shape[0]-1, shape[0], shape[0]+1, the row size, the middle, the end) instead of every range
+fn gen_ext_big(tier: &str, rng: &mut Rng, out: &mut dyn FnMut(String)) {
+    let thorough = tier == "thorough";
+    for s in c02_big_shapes(thorough) {
+        let a = tag(&s);
+        let n: usize = s.iter().product();
+        let d0 = s[0];
+        let row = n / d0;
+        let mut starts = vec![0, 1, 2, 3, d0 - 1, d0, d0 + 1, row, row + 1, 2 * row, n / 2, n.saturating_sub(d0), n.saturating_sub(row), n.saturating_sub(2), n - 1, n, n + 1];
+        starts.push(rng.below(n + 1)); starts.push(rng.below(d0 + 1));
+        starts.sort(); starts.dedup();
+        for &st in &starts {
+            let mut wins = vec![0, 1, 2, 3, 7, 8, d0 - 1, d0, d0 + 1, row, row + 1, n.saturating_sub(st), n.saturating_sub(st) + 1, n];
+            wins.push(rng.below(d0 + 2));
+            wins.sort(); wins.dedup();
+            for w in wins { out(format!("slice {a} {st} {}", st + w)); }
+            if st > 0 { out(format!("slice {a} {st} {}", st - 1)); out(format!("slice {a} {st} 0")); }
+        }
+        let full: Vec<usize> = (0..d0).collect();
+        let rev: Vec<usize> = (0..d0).rev().collect();
+        let dbl: Vec<usize> = (0..d0).chain(0..d0).collect();
+        let every_other: Vec<usize> = (0..d0).step_by(2).collect();
+        let mut lists: Vec<Vec<usize>> = vec![vec![], vec![0], vec![d0 - 1], vec![d0], vec![0, d0], vec![d0 - 1, 0, d0 - 1], full, rev, dbl, every_other, vec![d0 + 1000], vec![n], vec![n - 1]];
+        for _ in 0..(if thorough { 6 } else { 2 }) {
+            let l = 1 + rng.below(d0.min(24) + 3);
+            lists.push((0..l).map(|_| { let extra = (rng.below(16) == 0) as usize; rng.below(d0 + extra) }).collect());
+        }
+        for l in lists { out(format!("indices_at {a} {}", show_list(&l))); }
+    }
+}
+
+// ================================================================ executor
+
+/// image of a tag in another element type: a value-blind operation must move the IMAGES exactly as it moves the i64 tags
+trait Img: ArrayElement {
+    const NAME: &'static str;
+    fn img(t: i64) -> Self;
+    fn same(a: &Self, b: &Self) -> bool { a == b }
+}
+impl Img for i64 { const NAME: &'static str = "i64"; fn img(t: i64) -> Self { t } }
+impl Img for u8 { const NAME: &'static str = "u8"; fn img(t: i64) -> Self { tag_u8(t) } }
+impl Img for i8 { const NAME: &'static str = "i8"; fn img(t: i64) -> Self { tag_i8(t) } }
+impl Img for bool { const NAME: &'static str = "bool"; fn img(t: i64) -> Self { t % 2 != 0 } }
+impl Img for u16 { const NAME: &'static str = "u16"; fn img(t: i64) -> Self { t.rem_euclid(65521) as u16 } }
+impl Img for i32 { const NAME: &'static str = "i32"; fn img(t: i64) -> Self { (t % 2_000_000_011) as i32 } }
+impl Img for usize { const NAME: &'static str = "usize"; fn img(t: i64) -> Self { t.unsigned_abs() as usize } }
+/// tag 0 is NEGATIVE zero; compared bit-wise
+impl Img for f64 { const NAME: &'static str = "f64"; fn img(t: i64) -> Self { tag_f64z(t) } fn same(a: &Self, b: &Self) -> bool { a.to_bits() == b.to_bits() } }
+impl Img for f32 { const NAME: &'static str = "f32"; fn img(t: i64) -> Self { if t == 0 { -0.0 } else { (t % 16_000_000) as f32 } } fn same(a: &Self, b: &Self) -> bool { a.to_bits() == b.to_bits() } }
+impl Img for String { const NAME: &'static str = "String"; fn img(t: i64) -> Self { format!("s{t}") } }
+
+#[derive(Clone, Debug)]
+enum Out<V> { Ok(V), Err(&'static str), Panic }
+fn run<V>(f: impl FnOnce() -> Result<V, ArrayError>) -> Out<V> {
+    match catch_unwind(AssertUnwindSafe(f)) { Ok(Ok(v)) => Out::Ok(v), Ok(Err(e)) => Out::Err(err_name(&e)), Err(_) => Out::Panic }
+}
+
+enum Call { IndexAt(Vec<usize>), ToCoord(usize), At(Vec<usize>), OpIdx(usize), OpCoords(Vec<usize>), Slice(usize, usize), IndicesAt(Vec<usize>) }
+#[derive(Clone, Debug)]
+enum Ans<T> { Pos(usize), Coord(Vec<usize>), Elem(T), Arr { shape: Vec<usize>, elems: Vec<T>, consistent: bool } }
+
+fn ans_arr<T: ArrayElement>(a: Array<T>) -> Ans<T> { Ans::Arr { consistent: consistent(&a), shape: a.get_shape().unwrap(), elems: a.get_elements().unwrap() } }
+
+/// the real call.  `chained` = the same method on `Ok(array)` through `impl ArrayIndexing<T> for Result<Array<T>, ArrayError>`
+/// (`None`: the operators have no such form)
+fn call<T: Img>(a: &Array<T>, c: &Call, chained: bool) -> Option<Out<Ans<T>>> {
+    let r = || -> Result<Array<T>, ArrayError> { Ok(a.clone()) };
+    Some(match (c, chained) {
+        (Call::IndexAt(v), false) => run(|| a.index_at(v).map(Ans::Pos)),
+        (Call::IndexAt(v), true) => { let r = r(); run(|| r.index_at(v).map(Ans::Pos)) }
+        (Call::ToCoord(i), false) => run(|| a.index_to_coord(*i).map(Ans::Coord)),
+        (Call::ToCoord(i), true) => { let r = r(); run(|| r.index_to_coord(*i).map(Ans::Coord)) }
+        (Call::At(v), false) => run(|| a.at(v).map(Ans::Elem)),
+        (Call::At(v), true) => { let r = r(); run(|| r.at(v).map(Ans::Elem)) }
+        (Call::OpIdx(i), false) => run(|| Ok(Ans::Elem(a[*i].clone()))),
+        (Call::OpCoords(v), false) => run(|| Ok(Ans::Elem(a[&v[..]].clone()))),
+        (Call::Slice(s, e), false) => run(|| a.slice(*s..*e).map(ans_arr)),
+        (Call::Slice(s, e), true) => { let r = r(); run(|| r.slice(*s..*e).map(ans_arr)) }
+        (Call::IndicesAt(l), false) => run(|| a.indices_at(l).map(ans_arr)),
+        (Call::IndicesAt(l), true) => { let r = r(); run(|| r.indices_at(l).map(ans_arr)) }
+        (Call::OpIdx(_), true) | (Call::OpCoords(_), true) => return None,
+    })
+}
+
+/// protocol text of the canonical (plain receiver, i64) answer
+fn show_out(o: &Out<Ans<i64>>) -> String {
+    match o {
+        Out::Panic => "panic".to_string(),
+        Out::Err(e) => format!("err {e}"),
+        Out::Ok(Ans::Pos(p)) => format!("ok {p}"),
+        Out::Ok(Ans::Coord(c)) => format!("ok {}", show_list(c)),
+        Out::Ok(Ans::Elem(v)) => format!("ok {v}"),
+        Out::Ok(Ans::Arr { shape, elems, consistent }) => {
+            let t = format!("{}:{}", show_list(shape), show_list(elems));
+            if *consistent { format!("ok {t}") } else { format!("inconsistent {t}") }
+        }
+    }
+}
+
+/// does the answer `v` on the `T` image agree with the canonical answer `b` on the i64 tags?
+/// same outcome class (any two errors agree), same position / coordinates / shape, and every element is the image of the tag
+fn agree<T: Img>(b: &Out<Ans<i64>>, v: &Out<Ans<T>>) -> bool {
+    match (b, v) {
+        (Out::Panic, Out::Panic) | (Out::Err(_), Out::Err(_)) => true,
+        (Out::Ok(b), Out::Ok(v)) => match (b, v) {
+            (Ans::Pos(x), Ans::Pos(y)) => x == y,
+            (Ans::Coord(x), Ans::Coord(y)) => x == y,
+            (Ans::Elem(x), Ans::Elem(y)) => T::same(&T::img(*x), y),
+            (Ans::Arr { shape: s1, elems: e1, consistent: c1 }, Ans::Arr { shape: s2, elems: e2, consistent: c2 }) =>
+                s1 == s2 && c1 == c2 && e1.len() == e2.len() && e1.iter().zip(e2).all(|(x, y)| T::same(&T::img(*x), y)),
+            _ => false,
+        },
+        _ => false,
+    }
+}
+fn brief<T: Img>(v: &Out<Ans<T>>) -> String { truncate(&format!("{v:?}"), 200) }
+
+/// the case lines of one array follow each other: the arrays built for the last array argument are kept, per element type
+struct Cache { key: String, shape: Vec<usize>, tags: Vec<i64>, arrs: HashMap<TypeId, Rc<dyn Any>> }
+thread_local! { static CACHE: RefCell<Cache> = RefCell::new(Cache { key: String::new(), shape: vec![], tags: vec![], arrs: HashMap::new() }); }
+fn cached<T: Img + 'static>(key: &str) -> Rc<Array<T>> {
+    CACHE.with(|c| {
+        let mut c = c.borrow_mut();
+        if c.key != key || (c.key.is_empty() && c.arrs.is_empty()) {
+            let (s, e) = parse_arr_raw(key);
+            *c = Cache { key: key.to_string(), shape: s, tags: e, arrs: HashMap::new() };
+        }
+        if !c.arrs.contains_key(&TypeId::of::<T>()) {
+            // built WITHOUT going through any operation under test other than `Array::new`
+            let a: Array<T> = Array::new(c.tags.iter().map(|&t| T::img(t)).collect(), c.shape.clone()).expect("harness: array literal");
+            c.arrs.insert(TypeId::of::<T>(), Rc::new(a));
+        }
+        c.arrs[&TypeId::of::<T>()].clone().downcast::<Array<T>>().expect("harness: cache type")
+    })
+}
+
+/// one element type: plain and chained receiver against the canonical answer; `Some(text)` = a divergence
+fn variant<T: Img + 'static>(key: &str, c: &Call, base: &Out<Ans<i64>>, plain: bool, chained: bool) -> Option<String> {
+    let a = cached::<T>(key);
+    if plain {
+        let v = call(&*a, c, false)?;
+        if !agree(base, &v) {
+            return Some(if T::NAME == "i64" { format!("REPEAT-DIVERGENCE the same call a second time gives {}", brief(&v)) }
+                        else { format!("TYPE-DIVERGENCE element type {} gives {}", T::NAME, brief(&v)) });
+        }
+    }
+    if chained {
+        if let Some(v) = call(&*a, c, true) {
+            if !agree(base, &v) { return Some(format!("RECEIVER-DIVERGENCE the call on Ok(array) (element type {}) gives {}", T::NAME, brief(&v))); }
+        }
+    }
+    None
 }
 
 fn exec(op: &str, args: &[&str], expected: &str) -> Option<Verdict> {
-    let a = parse_arr_i64(args[0]);
-    let observed = match op {
-        "slice" => { let s: usize = args[1].parse().ok()?; let e: usize = args[2].parse().ok()?; guarded(|| arr_answer(a.slice(s..e))) }
-        "indices_at" => { let l = parse_usize_list(args[1]); guarded(|| arr_answer(a.indices_at(&l))) }
-        "index_at" => { let c = parse_usize_list(args[1]); guarded(|| show_res(&a.index_at(&c), |v| v.to_string())) }
-        "index_to_coord" => { let i: usize = args[1].parse().ok()?; guarded(|| show_res(&a.index_to_coord(i), |v| show_list(v))) }
-        "at" => { let c = parse_usize_list(args[1]); guarded(|| show_res(&a.at(&c), |v| v.to_string())) }
-        "op_index" => { let i: usize = args[1].parse().ok()?; guarded(|| format!("ok {}", a[i])) }
-        "op_index_coords" => { let c = parse_usize_list(args[1]); guarded(|| format!("ok {}", a[&c[..]])) }
+    let key = args[0];
+    let a = cached::<i64>(key);
+    let c = match op {
+        "slice" => Call::Slice(args[1].parse().ok()?, args[2].parse().ok()?),
+        "indices_at" => Call::IndicesAt(parse_usize_list(args[1])),
+        "index_at" => Call::IndexAt(parse_usize_list(args[1])),
+        "index_to_coord" => Call::ToCoord(args[1].parse().ok()?),
+        "at" => Call::At(parse_usize_list(args[1])),
+        "op_index" => Call::OpIdx(args[1].parse().ok()?),
+        "op_index_coords" => Call::OpCoords(parse_usize_list(args[1])),
         _ => return None,
     };
+    // canonical answer: plain receiver, i64 tags
+    let base = call(&*a, &c, false)?;
+    let mut observed = show_out(&base);
+    // robustness streams: the same call a second time, the call on Ok(array), and the element-type sweep.
+    // Arrays of up to 300 elements: every type on both receivers; larger ones: i64 / u8 on both, i8 / bool / f64 plain.
+    let small = a.len().unwrap() <= 300;
+    let d = variant::<i64>(key, &c, &base, true, true)
+        .or_else(|| variant::<u8>(key, &c, &base, true, true))
+        .or_else(|| variant::<f64>(key, &c, &base, true, small))
+        .or_else(|| variant::<i8>(key, &c, &base, true, small))
+        .or_else(|| variant::<bool>(key, &c, &base, true, small))
+        .or_else(|| if small { variant::<u16>(key, &c, &base, true, true) } else { None })
+        .or_else(|| if small { variant::<i32>(key, &c, &base, true, true) } else { None })
+        .or_else(|| if small { variant::<f32>(key, &c, &base, true, true) } else { None })
+        .or_else(|| if small { variant::<usize>(key, &c, &base, true, true) } else { None })
+        .or_else(|| if small { variant::<String>(key, &c, &base, true, true) } else { None });
+    if let Some(d) = d { observed = format!("{d}; plain Array<i64> call: {}", truncate(&observed, 300)); }
     Some(compare_default(observed, expected))
 }
 
 /// non-trivial: array has at least two axes longer than one (so row-major order matters)
 fn nontrivial(_op: &str, args: &[&str]) -> bool {
-    let (s, _) = parse_arr_raw(args[0]);
+    let s = args[0].strip_prefix('i').map_or_else(|| parse_arr_raw(args[0]).0, |b| parse_usize_list(b.split('+').next().unwrap()));
     s.iter().filter(|&&d| d > 1).count() >= 2
 }
 
 fn main() {
     harness_main(Spec { prop: "C02", gen, exec, nontrivial, hang_secs: 20,
-        rule: "exhaustive: every shape (rank<=4 len<=3 quick / len<=4 thorough; rank 5 len<=2 / <=3) x every flat index 0..len+1 x every coordinate vector of the box enlarged by one per axis, wrong-length vectors, far-out values; + seeded random shapes rank<=5 len<=6. slice / indices_at: every shape rank<=4 len<=3 (<=4 thorough) + an axis of length 5 + rank 0 and zero-length axes x every range 0<=start,end<=len+1 (arrays of <=12 elements; larger: every start x windows 0..shape[0]+2 and the ends len-1,len,len+1,start-1) x every index list of length<=3 over 0..=shape[0], reversed/doubled full lists, far-out values; + seeded random rank<=5 len<=6. distinct = distinct case lines; non-trivial = array with >=2 axes longer than 1" });
+        rule: "exhaustive: every shape (rank<=4 len<=3 quick / len<=4 thorough; rank 5 len<=2 / <=3) + zero-length axes in every position x every flat index 0..len+1 x every coordinate vector of the box enlarged by one per axis, wrong-length vectors, far-out values; + seeded random shapes rank<=5 len<=6. Big shapes (lib big_shapes: axis lengths 7..17, element counts up to 4900; every axis length 7..17 in leading/inner/trailing position of rank 1..3; power-of-two axis lengths 8..2048 in non-leading positions; rank 5; seeded random rank<=5 len<=20 (thorough <=40)): every flat index 0..len+1, every in-range coordinate vector and the one-off border (one component = its axis length, the others in range; the all-equal corner). slice / indices_at: every shape rank<=4 len<=3 (<=4 thorough) + an axis of length 5 + rank 0 and zero-length axes x every range 0<=start,end<=len+1 (arrays of <=12 elements; larger: every start x windows 0..shape[0]+2 and the ends len-1,len,len+1,start-1) x every index list of length<=3 over 0..=shape[0], reversed/doubled full lists, far-out values; + seeded random rank<=5 len<=6; big shapes: a grid of starts x windows around 0,1,2,shape[0]-1..+1,row size,middle,end and full/reversed/doubled/strided/random index lists. EVERY case is executed on the plain Array<i64> receiver (the compared answer), a second time, on Ok(array) through the Result-receiver impl (methods; the operators have none), and on the u8 / i8 / bool / f64 (tag 0 = -0.0, bit-wise) images (arrays <= 300 elements: also u16, i32, f32, usize, String, all on both receivers); any divergence fails the case. distinct = distinct case lines; non-trivial = array with >=2 axes longer than 1" });
 }
